@@ -234,7 +234,9 @@ def build(tier, seed):
 
     pair_cfgs = [((1, False, None), (2, False, None)), ((2, True, "little"), (2, False, "big")),
                  ((4, False, "little"), (1, True, "little")), ((3, False, None), (2, True, None)),
-                 ((2, False, "big"), (3, True, "little")), ((8, True, None), (8, False, "little"))]
+                 ((2, False, "big"), (3, True, "little")), ((8, True, None), (8, False, "little")),
+                 ((1, False, "local"), (2, False, "local")), ((2, True, "local"), (4, False, "local")),
+                 ((1, True, "network"), (8, False, "local"))]
     if tier != "quick":
         pair_cfgs += [((1, True, "network"), (4, True, "local")), ((5, False, "little"), (4, False, "little")),
                       ((2, False, "local"), (2, True, "network")), ((1, False, "little"), (1, True, "big")),
